@@ -128,11 +128,63 @@ fn gen_paged_x(rng: &mut Rng, n: usize, out: &mut Vec<String>, early: bool) {
     }
 }
 
+// ------------------------------------------------------------------------------------------------ user-written adapters (oracle only)
+/// Two things only an adapter written by the user can do (the built-in ones never do), both allowed by the Adapter documentation:
+/// "fail": raise an error of its own while the Search is still in progress - finish() must then release the Search's id and routing entry (C13; F53);
+/// "tick": give up its own pending call up the chain (a timeout around stream.next()) and call again, with another adapter below it -
+/// the chain position must fall back to that adapter, not to the top (C04/C10; F54: the stream waited for a lock held by its own caller).
+#[derive(Clone, Debug)] struct FailAfter { left: usize }
+#[derive(Clone, Debug)] struct Tick;
+#[async_trait::async_trait]
+impl<'a, S, A> ldap3::adapters::Adapter<'a, S, A> for FailAfter where S: AsRef<str> + Clone + std::fmt::Debug + Send + Sync + 'a, A: AsRef<[S]> + Clone + std::fmt::Debug + Send + Sync + 'a {
+    async fn start(&mut self, stream: &mut ldap3::SearchStream<'a, S, A>, base: &str, scope: Scope, filter: &str, attrs: A) -> ldap3::result::Result<()> { stream.start(base, scope, filter, attrs).await }
+    async fn next(&mut self, stream: &mut ldap3::SearchStream<'a, S, A>) -> ldap3::result::Result<Option<ResultEntry>> {
+        if self.left == 0 { return Err(ldap3::LdapError::AdapterInit("the adapter's own error".into())); } self.left -= 1; stream.next().await }
+    async fn finish(&mut self, stream: &mut ldap3::SearchStream<'a, S, A>) -> ldap3::result::LdapResult { stream.finish().await }
+}
+#[async_trait::async_trait]
+impl<'a, S, A> ldap3::adapters::Adapter<'a, S, A> for Tick where S: AsRef<str> + Clone + std::fmt::Debug + Send + Sync + 'a, A: AsRef<[S]> + Clone + std::fmt::Debug + Send + Sync + 'a {
+    async fn start(&mut self, stream: &mut ldap3::SearchStream<'a, S, A>, base: &str, scope: Scope, filter: &str, attrs: A) -> ldap3::result::Result<()> { stream.start(base, scope, filter, attrs).await }
+    async fn next(&mut self, stream: &mut ldap3::SearchStream<'a, S, A>) -> ldap3::result::Result<Option<ResultEntry>> {
+        loop { if let Ok(r) = tokio::time::timeout(std::time::Duration::from_millis(50), stream.next()).await { return r; } } }
+    async fn finish(&mut self, stream: &mut ldap3::SearchStream<'a, S, A>) -> ldap3::result::LdapResult { stream.finish().await }
+}
+pub fn gen_useradapter(_rng: &mut Rng, _n: usize, out: &mut Vec<String>) { for v in ["fail 0", "fail 1", "tick 0", "tick 1"] { out.push(format!("useradapter {}", v)); } }
+async fn run_useradapter(args: &[String]) -> (String, Option<String>) {
+    let mut sess = new_sess();
+    let table = sess.ldap.verif_id_table_handle();
+    let mut l = sess.ldap.clone();
+    let below = args[1] == "1";      // with EntriesOnly below the user's adapter
+    let left = |table: &std::sync::Arc<std::sync::Mutex<(i32, std::collections::HashSet<i32>)>>, gauges: &std::sync::Arc<std::sync::Mutex<(Vec<i32>, Vec<i32>)>>| { let m = table.lock().unwrap(); let g = gauges.lock().unwrap(); (m.1.len(), g.0.len(), g.1.len()) };
+    if args[0] == "fail" {
+        let mut ads: Vec<Box<dyn ldap3::adapters::Adapter<_, _>>> = vec![Box::new(FailAfter { left: 1 })]; if below { ads.push(Box::new(EntriesOnly::new())); }
+        let mut st = match l.streaming_search_with(ads, "dc=x", Scope::Subtree, "(a=b)", vec!["cn"]).await { Ok(s) => s, Err(e) => return ("oracle-only".into(), Some(format!("harness: start failed {:?}", e))) };
+        let mut script = vec![]; for k in 1..=3 { script.extend(item_msg(1, 'e', k, &[])); }       // entries, never a final message
+        sess.send(&script).await; settle().await;
+        let a = st.next().await; let b = st.next().await;
+        let res = st.finish().await; settle().await;
+        let lf = left(&table, &sess.gauges);
+        let o = if !matches!(a, Ok(Some(_))) || b.is_ok() { Some(format!("harness: expected an entry and then the adapter's error, got {:?} / {:?}", a.map(|x| x.is_some()), b.map(|x| x.is_some()))) }
+            else if res.rc != 88 { Some(format!("finish() before the end must return 88, returned {}", res.rc)) }
+            else if lf != (0, 0, 0) { Some(format!("F53: the stream failed with an error raised by an adapter while its Search was in progress; after finish() {} ids are still reserved and {}/{} routing entries remain", lf.0, lf.1, lf.2)) } else { None };
+        return ("oracle-only".into(), o);
+    }
+    let mut ads: Vec<Box<dyn ldap3::adapters::Adapter<_, _>>> = vec![Box::new(Tick)]; if below { ads.push(Box::new(EntriesOnly::new())); }
+    let mut st = match l.streaming_search_with(ads, "dc=x", Scope::Subtree, "(a=b)", vec!["cn"]).await { Ok(s) => s, Err(e) => return ("oracle-only".into(), Some(format!("harness: start failed {:?}", e))) };
+    let h = tokio::spawn(async move { let r = st.next().await; (r.map(|x| x.map(|e| show_entry(&e))).map_err(|e| format!("{:?}", e)), st) });
+    settle().await; tokio::time::advance(std::time::Duration::from_millis(130)).await; settle().await;      // the adapter has given up its call twice
+    sess.send(&item_msg(1, 'e', 7, &[])).await; settle().await;
+    tokio::time::advance(std::time::Duration::from_millis(60)).await; settle().await; tokio::time::advance(std::time::Duration::from_millis(60)).await; settle().await;
+    let o = if !h.is_finished() { Some("F54: an adapter gave up its pending call up the chain and called again; the entry has arrived and next() does not return (the stream waits for a lock its own caller holds)".to_string()) }
+        else { match h.await { Ok((Ok(Some(e)), _)) if e == "e7" => None, Ok((other, _)) => Some(format!("the entry e7 was sent, next() returned {:?}", other)), Err(_) => Some("next() panicked".into()) } };
+    ("oracle-only".into(), o)
+}
+
 pub fn run(lane: &str, args: &[&str]) -> (String, Option<String>) {
     let args: Vec<String> = args.iter().map(|x| x.to_string()).collect();
     let lane = lane.to_string();
     let rt = runtime();
-    let r = std::panic::catch_unwind(std::panic::AssertUnwindSafe(|| rt.block_on(async move { if lane == "stream" { run_stream(&args).await } else { run_paged(&args).await } })));
+    let r = std::panic::catch_unwind(std::panic::AssertUnwindSafe(|| rt.block_on(async move { if lane == "stream" { run_stream(&args).await } else if lane == "useradapter" { run_useradapter(&args).await } else { run_paged(&args).await } })));
     match r { Ok(x) => x, Err(_) => ("panic".into(), Some("the stream API panicked".into())) }
 }
 
